@@ -184,8 +184,19 @@ binary_encoding_handlers = {
     BINARY_ENCODING_URLSAFE_BASE64: ByteArray.to_urlsafe_base64,
 }
 
+def _default_binary_decoding(b):
+    if isinstance(b, (six.binary_type, bytearray, memoryview, mmap)):
+        return (b,)
+
+    if isinstance(b, (list, tuple)) and len(b) > 0 and all((
+            isinstance(c, (six.binary_type, bytearray, memoryview)) for c in b)):
+        return tuple(b)
+
+    raise ValidationError(b)
+
+
 binary_decoding_handlers = {
-    None: lambda x: (x,),
+    None: _default_binary_decoding,
     BINARY_ENCODING_HEX: ByteArray.from_hex,
     BINARY_ENCODING_BASE64: ByteArray.from_base64,
     BINARY_ENCODING_URLSAFE_BASE64: ByteArray.from_urlsafe_base64,
